@@ -408,3 +408,11 @@ def inclusion_witness(a: Parsed, b: Parsed) -> Optional[str]:
                 seen[nxt] = seen[st] + chr(dfa.reps[bi])
                 queue.append(nxt)
     return None
+
+
+def items_first_chars(items, flags: int, state) -> CS:
+    """First characters of a regex fragment (sre items), ignoring zero-width anchors such as \\B."""
+    cleaned = [it for it in items if it[0] is not _c.AT]
+    nfa = NFA()
+    _build(nfa, cleaned, flags, state, nfa.start, nfa.accept)
+    return first_chars(Parsed("<fragment>", nfa, None, flags, state))
